@@ -3,6 +3,7 @@ package loader
 import (
 	schema "github.com/jsightapi/jsight-schema-core"
 	"github.com/jsightapi/jsight-schema-core/errs"
+	"strings"
 
 	"github.com/jsightapi/jsight-schema-core/bytes"
 	"github.com/jsightapi/jsight-schema-core/json"
@@ -146,7 +147,7 @@ func checkBranchNodeWithOrConstraint(schemaNode ischema.Node, jsonNode ischema.B
 	}
 
 	for _, n := range c.Names() {
-		if n[0] == '@' {
+		if strings.HasPrefix(n, "@") {
 			hasUserTypeInOr = true
 			break
 		}
